@@ -417,6 +417,33 @@ def case_shell(case, stats):
             viols.append({"key": "shell-nbasis", "msg": f"shell {combo}: nbasis {got}, expected {want}"})
         if sh.ncon != ncon or sh.nexp != nexp:
             viols.append({"key": "shell-nbasis", "msg": f"shell {combo}: ncon/nexp {sh.ncon}/{sh.nexp}"})
+        # the count FOLLOWS the angular momenta and kinds: after it was read once, other kinds / angular momenta are assigned (or
+        # written into the arrays in place, as the Molden reader does) and it is read again
+        other = tuple(combos[int(i)] for i in rng.integers(0, len(combos), size=ncon))
+        ang2, kinds2 = [c[0] for c in other], [c[1] for c in other]
+        mode = int(rng.integers(3))
+        try:
+            if mode == 0:
+                sh.angmoms = ang2
+                sh.kinds = kinds2
+            elif mode == 1:
+                sh.kinds = kinds2
+                ang2 = angmoms
+            else:
+                for i, k in enumerate(kinds2):
+                    sh.kinds[i] = k
+                ang2 = angmoms
+        except Exception:
+            continue
+        stats["shell_reassignments"] = stats.get("shell_reassignments", 0) + 1
+        want2 = shell_nbasis(ang2, kinds2)
+        try:
+            got2 = sh.nbasis
+        except Exception:
+            got2 = None
+        if got2 != want2:
+            viols.append({"key": "shell-nbasis", "msg": f"shell {combo} after {['assigning angmoms and kinds', 'assigning kinds', 'writing kinds in place'][mode]} "
+                                                          f"{list(zip(ang2, kinds2))}: nbasis {got2}, expected {want2} (it was {got} before)"})
     return viols[:10], len(seen)
 
 
